@@ -60,6 +60,10 @@ func Stream(label string) *DRBG {
 	return d
 }
 
+// Twin returns a generator of its own that produces the same bytes as a fresh Stream(label): two
+// machines cloned from one image, or two programs started with the same fixed seed.
+func Twin(label string) *DRBG { return New(seed, label) }
+
 // Read fills p. A one-byte read issued by crypto/internal/randutil's
 // MaybeReadByte (which the standard library performs at random to defeat
 // exactly the determinism we need) is answered without advancing the stream.
